@@ -107,8 +107,8 @@ inductive Prepared where
   deriving Repr
 
 /-- the checking / compiling half of `Router.Add(path, handler, methods...)` at top level (no group):
-    NewRoute, goodInfo, formatPath, parseParamRoute -/
-def prepare (strict : Bool) (id : Nat) (name : Bytes) (rawMethods : List Bytes) (rawPath : Bytes)
+    NewRoute, goodInfo, formatPath, parseParamRoute. `gv`: the global path variables at this registration -/
+def prepare (gv : GVars) (strict : Bool) (id : Nat) (name : Bytes) (rawMethods : List Bytes) (rawPath : Bytes)
     (nilHandler : Bool) : Prepared :=
   match formatMethods rawMethods with
   | none => .unsupported
@@ -122,7 +122,7 @@ def prepare (strict : Bool) (id : Nat) (name : Bytes) (rawMethods : List Bytes) 
   if isFixedPath path then
     .ok { id := id, name := name, methods := methods, path := path, static := true, info := emptyInfo }
   else
-    match compileRoute path with
+    match compileRouteIn gv path with
     | .unsupported => .unsupported
     | .reject why => .reject why
     | .ok info =>
@@ -136,9 +136,9 @@ inductive RegResult where
   | unsupported
   deriving Repr
 
-def register (rt : RouterM) (id : Nat) (name : Bytes) (rawMethods : List Bytes) (rawPath : Bytes)
+def register (gv : GVars) (rt : RouterM) (id : Nat) (name : Bytes) (rawMethods : List Bytes) (rawPath : Bytes)
     (nilHandler : Bool) : RegResult :=
-  match prepare rt.opts.strict id name rawMethods rawPath nilHandler with
+  match prepare gv rt.opts.strict id name rawMethods rawPath nilHandler with
   | .ok route => .ok (insertRoute rt route) route
   | .reject why => .reject why
   | .unsupported => .unsupported
@@ -267,12 +267,15 @@ structure RouteDef where
   methods : List Bytes
   path : Bytes
   nilHandler : Bool
+  /-- the global path variables in force when this definition is registered (`rux.SetGlobalVar` may be
+      called between two registrations); default: the map of the source text -/
+  gvars : GVars := Facts.globalVarsB
 
 /-- register a list of definitions in order; `none` as soon as one is rejected or unsupported -/
 def registerAll (rt : RouterM) : List RouteDef → Option (RouterM × List RouteM)
   | [] => some (rt, [])
   | d :: ds =>
-    match register rt d.id d.name d.methods d.path d.nilHandler with
+    match register d.gvars rt d.id d.name d.methods d.path d.nilHandler with
     | .ok rt' route =>
       match registerAll rt' ds with
       | some (rt'', rs) => some (rt'', route :: rs)
